@@ -261,19 +261,32 @@ pub struct ChannelMonitorImpl { pub destination_script: ScriptBuf, pub broadcast
     pub counterparty_payment_script: ScriptBuf, pub shutdown_script: Option<ScriptBuf>, pub channel_keys_id: [u8; 32] }
 pub open spec fn static_desc(m: ChannelMonitorImpl, txid: Txid, i: u16, outp: TxOut) -> SpendableOutputDescriptor {
     SpendableOutputDescriptor::StaticOutput { outpoint: OutPoint { txid, index: i }, output: outp, channel_keys_id: Some(m.channel_keys_id) } }
-// what get_spendable_outputs reports for one output: one descriptor per script of ours it pays to, in the order destination / delayed / to_remote / shutdown
-pub open spec fn reported_for(m: ChannelMonitorImpl, f: FundingScope, txid: Txid, i: u16, outp: TxOut) -> Seq<SpendableOutputDescriptor> {
-    let a = if outp.script_pubkey.id == m.destination_script.id { seq![static_desc(m, txid, i, outp)] } else { Seq::empty() };
-    let b = if m.broadcasted_holder_revokable_script is Some && m.broadcasted_holder_revokable_script->Some_0.0.id == outp.script_pubkey.id {
+// what get_spendable_outputs reports for one output: one descriptor per script of ours it pays to (destination / delayed / to_remote / shutdown);
+// the contract compares multisets: the order in which the descriptors are pushed is not part of the property
+pub open spec fn rep_a(m: ChannelMonitorImpl, txid: Txid, i: u16, outp: TxOut) -> Seq<SpendableOutputDescriptor> {
+    if outp.script_pubkey.id == m.destination_script.id { seq![static_desc(m, txid, i, outp)] } else { Seq::empty() } }
+pub open spec fn rep_b(m: ChannelMonitorImpl, f: FundingScope, txid: Txid, i: u16, outp: TxOut) -> Seq<SpendableOutputDescriptor> {
+    if m.broadcasted_holder_revokable_script is Some && m.broadcasted_holder_revokable_script->Some_0.0.id == outp.script_pubkey.id {
         seq![SpendableOutputDescriptor::DelayedPaymentOutput(DelayedPaymentOutputDescriptor { outpoint: OutPoint { txid, index: i },
             per_commitment_point: m.broadcasted_holder_revokable_script->Some_0.1, to_self_delay: m.on_holder_tx_csv, output: outp,
             revocation_pubkey: m.broadcasted_holder_revokable_script->Some_0.2, channel_keys_id: m.channel_keys_id,
-            channel_value_satoshis: f.channel_parameters.channel_value_satoshis, channel_transaction_parameters: Some(f.channel_parameters) })] } else { Seq::empty() };
-    let c = if m.counterparty_payment_script.id == outp.script_pubkey.id {
+            channel_value_satoshis: f.channel_parameters.channel_value_satoshis, channel_transaction_parameters: Some(f.channel_parameters) })] } else { Seq::empty() } }
+pub open spec fn rep_c(m: ChannelMonitorImpl, f: FundingScope, txid: Txid, i: u16, outp: TxOut) -> Seq<SpendableOutputDescriptor> {
+    if m.counterparty_payment_script.id == outp.script_pubkey.id {
         seq![SpendableOutputDescriptor::StaticPaymentOutput(StaticPaymentOutputDescriptor { outpoint: OutPoint { txid, index: i }, output: outp, channel_keys_id: m.channel_keys_id,
-            channel_value_satoshis: f.channel_parameters.channel_value_satoshis, channel_transaction_parameters: Some(f.channel_parameters) })] } else { Seq::empty() };
-    let d = if m.shutdown_script is Some && m.shutdown_script->Some_0.id == outp.script_pubkey.id { seq![static_desc(m, txid, i, outp)] } else { Seq::empty() };
-    ((a + b) + c) + d
+            channel_value_satoshis: f.channel_parameters.channel_value_satoshis, channel_transaction_parameters: Some(f.channel_parameters) })] } else { Seq::empty() } }
+pub open spec fn rep_d(m: ChannelMonitorImpl, txid: Txid, i: u16, outp: TxOut) -> Seq<SpendableOutputDescriptor> {
+    if m.shutdown_script is Some && m.shutdown_script->Some_0.id == outp.script_pubkey.id { seq![static_desc(m, txid, i, outp)] } else { Seq::empty() } }
+pub open spec fn reported_for(m: ChannelMonitorImpl, f: FundingScope, txid: Txid, i: u16, outp: TxOut) -> Seq<SpendableOutputDescriptor> {
+    ((rep_a(m, txid, i, outp) + rep_b(m, f, txid, i, outp)) + rep_c(m, f, txid, i, outp)) + rep_d(m, txid, i, outp)
+}
+pub proof fn lemma_reported_multiset(m: ChannelMonitorImpl, f: FundingScope, txid: Txid, i: u16, outp: TxOut)
+    ensures reported_for(m, f, txid, i, outp).to_multiset() =~= rep_a(m, txid, i, outp).to_multiset().add(rep_b(m, f, txid, i, outp).to_multiset()).add(rep_c(m, f, txid, i, outp).to_multiset()).add(rep_d(m, txid, i, outp).to_multiset())
+{
+    let a = rep_a(m, txid, i, outp); let b = rep_b(m, f, txid, i, outp); let c = rep_c(m, f, txid, i, outp); let d = rep_d(m, txid, i, outp);
+    vstd::seq_lib::lemma_multiset_commutative(a, b);
+    vstd::seq_lib::lemma_multiset_commutative(a + b, c);
+    vstd::seq_lib::lemma_multiset_commutative((a + b) + c, d);
 }
 impl ChannelMonitorImpl {
 //@extract lightning/src/chain/channelmonitor.rs :: impl ChannelMonitorImpl :: fn get_spendable_outputs
@@ -287,8 +300,11 @@ impl ChannelMonitorImpl {
     option_script_is(&self.shutdown_script, &outp.script_pubkey)
 //@requires
     old(spendable_outputs)@.len() == 0, i < 65536,
+//@at body_start
+    broadcast use vstd::seq_lib::group_to_multiset_ensures;
+    proof { lemma_reported_multiset(*self, *funding_spent, tx.id, i as u16, *outp); }
 //@ensures P C07 an-output-is-reported-as-spendable-exactly-for-each-of-our-scripts-it-pays-to-with-its-own-outpoint-and-for-a-delayed-output-the-delay-and-keys-it-was-built-with
-    final(spendable_outputs)@ =~= reported_for(*self, *funding_spent, tx.id, i as u16, *outp),
+    final(spendable_outputs)@.to_multiset() =~= reported_for(*self, *funding_spent, tx.id, i as u16, *outp).to_multiset(),
 //@mutant delayed_output_reported_with_the_wrong_delay
     to_self_delay: self.on_holder_tx_csv,
 //@with
